@@ -32,7 +32,9 @@ BaseSearches == {<<"search", 0, 0, <<>>>>, <<"streaming_search", 0, 0, SubFull>>
 MoreSearches == {<<"search", 1, 0, <<>>>>, <<"search", 2, 0, <<>>>>, <<"streaming_search", 1, 0, SubFull>>,
                  <<"streaming_search", 2, 0, SubFull>>, <<"streaming_search_with", 0, 0, SubFull>>,
                  <<"streaming_search_with", 2, 1, SubEarly>>}
+SubPaged == <<"next", "lastid", "next", "lastid", "next", "next", "lastid", "result">>
 StreamVariants == {<<c[1], 0, c[2], sb>> : c \in {<<"streaming_search", 0>>, <<"streaming_search_with", 1>>}, sb \in SubsAll}
+                  \cup {<<"streaming_search_with", 0, 2, sb>> : sb \in SubsAll \cup {SubPaged}}       \* the PagedResults adapter
 NoResp      == {<<"abandon", 0, 0, <<>>>>, <<"abandon", 1, 0, <<>>>>, <<"abandon", 2, 0, <<>>>>, <<"unbind", 0, 0, <<>>>>}
 BaseNoResp  == {<<"abandon", 1, 0, <<>>>>, <<"unbind", 0, 0, <<>>>>}
 NonOpCalls  == {<<"last_id", 0, 0, <<>>>>, <<"is_closed", 0, 0, <<>>>>, <<"get_peer_certificate", 0, 0, <<>>>>, <<"noop", 0, 0, <<>>>>}
@@ -62,7 +64,8 @@ Probes3 == {PDelete, PSearch, PCompare2}
 Probes7 == {PDelete, PSearch, PStream, PClosed, PLastId, PCert, PAbandon}
 ProbesEnd == {PDelete, PClosed, PLastId}
 
-AllOpsOk == Steps(BaseSingles \cup BaseNoResp, Plain, {"ok"}) \cup Steps(BaseSearches, Plain, {"k1"})
+PagedV == <<"streaming_search_with", 0, 2, SubPaged>>
+AllOpsOk == Steps(BaseSingles \cup BaseNoResp, Plain, {"ok"}) \cup Steps(BaseSearches, Plain, {"k1"}) \cup Steps({PagedV}, Plain, {"p2"})
 
 QuickFamilies == <<
   \* A1: every call/argument/stream-pattern variant, plain
@@ -75,7 +78,7 @@ QuickFamilies == <<
   \* A3: every stream pattern x every search behaviour, with and without timeout
   <<Steps(StreamVariants, {<<0, 0, 0>>, <<0, 1, 0>>}, SrvSearch)>>,
   \* B: modifiers affect exactly the next operation
-  <<Steps(BaseSingles \cup BaseNoResp, Mods1, {"ok"}) \cup Steps(BaseSearches, Mods1, {"k1"}), Probes3>>,
+  <<Steps(BaseSingles \cup BaseNoResp, Mods1, {"ok"}) \cup Steps(BaseSearches, Mods1, {"k1"}) \cup Steps({PagedV}, Mods1, {"p2"}), Probes3>>,
   <<Steps({<<"noop", 0, 0, <<>>>>}, Mods1, {"ok"}), {PLastId, PClosed, PCert}, Probes3 \cup Steps(LocalCalls, Plain, {"ok"})>>,
   <<Steps({<<"delete", 0, 0, <<>>>>}, {<<0, 1, 0>>}, {"ok"}) \cup Steps({<<"search", 0, 0, <<>>>>, <<"streaming_search", 0, 0, SubFull>>}, {<<0, 1, 0>>}, {"k1"}),
     {S("delete", 0, 0, <<>>, 0, 0, 0, "sil")}>>,
